@@ -66,7 +66,7 @@ class GlueEngine:
             m = re.match(r"-D(GBUF|BIG|OS_MAXOBJ|OS_MAXFILE|NMAX|BMAX)=(\d+)", d)
             if m:
                 big = max(big, int(m.group(2)) + 8)
-        big = max(big, 72)
+        big = max(big, 72, getattr(self, 'min_harness_bound', 0))
         for lp in core.show_loops(gb):
             fn = lp.rsplit(".", 1)[0]
             names = ("harness", "glue_fill", "split_text", "check_layout", "expected", "vf_copy", "os_fill", "copy_shadow", "frame", "rec_check", "any_line", "stub_line_to_instr")
